@@ -33,7 +33,7 @@ def models():
     return out
 
 
-SHAPES = ('symmetric', 'skewed', 'bimodal', 'bounded', 'heavy', 'five-values', 'near-constant', 'shifted-large', 'offset-tiny-spread')
+SHAPES = ('symmetric', 'skewed', 'bimodal', 'bounded', 'heavy', 'five-values', 'near-constant', 'shifted-large', 'offset-tiny-spread', 'micro')
 
 
 def data(shape, n, rs):
@@ -55,6 +55,8 @@ def data(shape, n, rs):
         return 1.0e4 + rs.gamma(3.0, 50.0, n)
     if shape == 'offset-tiny-spread':       # spread 1e-7 of the magnitude (timestamps, large identifiers)
         return 1.0e7 + rs.uniform(0.0, 1.0, n)
+    if shape == 'micro':                    # quantities of the order 1e-7 in absolute terms (lengths in metres, durations in seconds)
+        return 2.0e-6 + 1.0e-7 * rs.normal(size=n)
     raise KeyError(shape)
 
 
